@@ -89,6 +89,17 @@ var tlTemplates = []string{
 	"\xffS```" + hA + "\n" + hA,                // 70 indented fence
 	"> \xffS\xffS```\n> " + hA,                 // 71 indented fence inside a block quote
 	"![a][" + hA + "]\n\n[b]: c",               // 72 full image reference
+	// ---- added after the second campaign's predictions (73..)
+	"    a\n\n" + hA + hA,                       // 73 indented code, blank line, two free bytes
+	"> # [a](" + hA + ")\n> " + hA,              // 74 heading ending in an inline link inside a container
+	"-\n\n- " + hA + hA,                         // 75 loose list with an empty item
+	"- a\n\n" + hA + " b",                       // 76 list, blank line, another marker
+	">\t" + hA + hA,                             // 77 tab after a block quote marker
+	"-\t" + hA + hA,                             // 78 tab after a list marker
+	">\t>" + hA + hA,                            // 79 nested quote after a partially consumed tab
+	">  \t" + hA + hA,                           // 80 spaces then a tab inside a container
+	"see <a\n" + hA + "=\"x\">b</a>",             // 81 multi-line inline HTML tag
+	"a\n  " + hA + " b",                         // 82 indented interrupting block
 }
 
 // tlQuick lists the templates with at most two holes... (kept for reference);
